@@ -18,5 +18,11 @@ def main(argv):
     if what == "kernel":
         from selftest import kerneltest
         return kerneltest.run(rest)
+    if what == "seeded":
+        from selftest import seeded
+        return seeded.run(rest)
+    if what == "seeded-add":
+        from selftest import seeded
+        return seeded.add(rest)
     print("unknown selftest %r" % what)
     return 2
